@@ -32,12 +32,12 @@ type c05Case struct {
 }
 
 type replay struct {
-	Case   int     `json:"case"`
-	Seed   uint64  `json:"seed"`
-	Config c05Case `json:"config"`
+	Case   int      `json:"case"`
+	Seed   uint64   `json:"seed"`
+	Config c05Case  `json:"config"`
 	Txn    *sim.Txn `json:"txn,omitempty"`
-	Phase  string  `json:"phase,omitempty"`
-	Steps  int64   `json:"steps,omitempty"`
+	Phase  string   `json:"phase,omitempty"`
+	Steps  int64    `json:"steps,omitempty"`
 }
 
 const stepBound = 400
@@ -147,6 +147,22 @@ func genGenerated(r *sim.Rand) c05Case {
 		}
 		fl.Req = edges()
 		fl.Resp = edges()
+		// the other filter clauses: they are evaluated on every transaction, also on hostile ones and on the
+		// response walk that follows an early response (when there is no provider response yet)
+		if r.Chance(1, 2) {
+			switch r.Intn(5) {
+			case 0:
+				fl.FilterExtra = "  status_code: [200, 418]\n"
+			case 1:
+				fl.FilterExtra = "  query_params:\n    - key: mode\n      value: fast\n"
+			case 2:
+				fl.FilterExtra = "  headers:\n    - key: x-env\n      value: prod\n  method: [GET, POST]\n"
+			case 3:
+				fl.FilterExtra = "  status_code: [500]\n  query_params:\n    - key: a\n      value: \"\"\n"
+			default:
+				fl.FilterExtra = "  method: []\n  status_code: []\n"
+			}
+		}
 		c.Flows = append(c.Flows, fl)
 	}
 	if nf == 2 && r.Chance(1, 6) {
@@ -274,6 +290,32 @@ flow:
           name: globalStream
           at: end
 `, proc, quotaID, extra)
+}
+
+// quotaOrderCase: a valid quota with a chain of internal limits (c0 under q0, c1 under c0, c2 under c1) listed
+// in every order, concurrent or fixed-window, with a limiter on one of them (24 files).
+const nQuotaOrder = 24
+
+func quotaOrderCase(i int) c05Case {
+	perms := [][]int{{0, 1, 2}, {0, 2, 1}, {1, 0, 2}, {1, 2, 0}, {2, 0, 1}, {2, 1, 0}}
+	perm := perms[i%6]
+	i /= 6
+	conc := i%2 == 1
+	i /= 2
+	target := []string{"c2", "c0"}[i%2]
+	strat := "      fixed_window:\n        max: 5\n        interval: 1\n        interval_unit: minute\n"
+	if conc {
+		strat = "      concurrent:\n        max_request_count: 3\n        request_expiration_sec: 5\n"
+	}
+	var sb strings.Builder
+	sb.WriteString("quotas:\n  - id: q0\n    filter:\n      url: a.com/*\n    strategy:\n" + strat + "internal_limits:\n")
+	parents := []string{"q0", "c0", "c1"}
+	for _, k := range perm {
+		fmt.Fprintf(&sb, "  - id: c%d\n    parent_id: %s\n    strategy:\n%s", k, parents[k], strat)
+	}
+	c := c05Case{Kind: "quota", Quotas: map[string]string{"q.yaml": sb.String()}, RawFlw: map[string]string{}}
+	c.RawFlw["lf.yaml"] = limiterFlow(target, "Limiter", "")
+	return c
 }
 
 func genQuota(r *sim.Rand) c05Case {
@@ -449,15 +491,25 @@ func main() {
 		case i < exTotal:
 			m := i
 			if !args.Thorough() {
-				m = int(sim.NewRand(args.Seed*31 + uint64(i)).U64() % uint64(nEx))
+				m = int(sim.NewRand(args.Seed*31+uint64(i)).U64() % uint64(nEx))
 			}
 			c = exhaustiveCase(m&255, m>>8)
+			switch i % 4 { // the connection subsets are also run with the other filter clauses present
+			case 1:
+				c.Flows[0].FilterExtra = "  status_code: [200, 418]\n"
+			case 2:
+				c.Flows[0].FilterExtra = "  query_params:\n    - key: mode\n      value: fast\n"
+			}
 		case i < exTotal+nGen:
 			c = genGenerated(r)
 		case i < exTotal+nGen+nRefs:
 			c = genRefs(r)
 		case i < exTotal+nGen+nRefs+nQuota:
-			c = genQuota(r)
+			if k := i - (exTotal + nGen + nRefs); k < nQuotaOrder {
+				c = quotaOrderCase(k)
+			} else {
+				c = genQuota(r)
+			}
 		default:
 			c = parallelCase(i - (exTotal + nGen + nRefs + nQuota))
 		}
